@@ -47,6 +47,18 @@ Round 5:
   `acquire()` stays held when the statements up to the `release()` raise - and the repetition loop deliberately
   survives such an exception (C17-F3), so the next repetition of ANY event would block for ever.  Locks only via `with`.
 `Props/C17.lean`: `request_snapshot_tied` / `lock_discipline_tied` (`decide`).
+
+Round 6:
+* `sleepArgs` - one code per `sleep(..)` call (`time.sleep`, `sleep`, any `<x>.sleep`) in `trigger_denm_messages`:
+    0 = a statement of its own directly in the body of the repetition `while` loop (not inside the `try` that protects
+        a repetition, not in a branch) whose single argument is the constant interval expression
+        `<request>.denm_interval / 1000`, or a local name every binding of which in the function is that expression;
+    1 = that argument, but the call is somewhere else (inside try / if / a nested loop / outside the loop);
+    2 = any other argument (a subtraction of elapsed time, a second term, a keyword ...).
+  The model's loop (`FlexModel.Fac.Denm.loop` / `loopDrift`) waits the nominal interval after every repetition,
+  whatever the repetition itself took; `time.sleep(i/1000 - elapsed)` (seeded change C17-m11: 'drift compensation'
+  without a clamp at 0, outside the try) raises ValueError as soon as one hand-over outlasts the interval.
+`Props/C17.lean`: `repetition_sleep_tied` (`decide`).
 """
 from __future__ import annotations
 
@@ -347,6 +359,52 @@ def analyse_request():
     return {"snapshot_site": site, "bare_lock_calls": bare}
 
 
+def _is_interval_expr(node):
+    """`<name>.denm_interval / 1000`"""
+    return (isinstance(node, ast.BinOp) and isinstance(node.op, ast.Div)
+            and isinstance(node.right, ast.Constant) and type(node.right.value) is int and node.right.value == 1000
+            and isinstance(node.left, ast.Attribute) and node.left.attr == "denm_interval"
+            and isinstance(node.left.value, ast.Name))
+
+
+def analyse_sleep():
+    """round 6: the argument and the place of every sleep call of the repetition loop (see module docstring)"""
+    tree = ast.parse(gen_lean.src(FILE))
+    cls = next((n for n in tree.body if isinstance(n, ast.ClassDef) and n.name == CLASS), None)
+    if cls is None:
+        raise ValueError(f"class {CLASS} not found in {FILE}")
+    fn = next((n for n in cls.body if isinstance(n, (ast.FunctionDef, ast.AsyncFunctionDef))
+               and n.name == "trigger_denm_messages"), None)
+    if fn is None:
+        raise ValueError(f"{CLASS}.trigger_denm_messages not found")
+
+    def is_sleep(n):
+        return isinstance(n, ast.Call) and ((isinstance(n.func, ast.Attribute) and n.func.attr == "sleep")
+                                            or (isinstance(n.func, ast.Name) and n.func.id == "sleep"))
+
+    direct = {id(st.value) for w in fn.body if isinstance(w, ast.While) for st in w.body
+              if isinstance(st, ast.Expr) and is_sleep(st.value)}
+
+    def arg_ok(call):
+        if len(call.args) != 1 or call.keywords:
+            return False
+        a = call.args[0]
+        if _is_interval_expr(a):
+            return True
+        if isinstance(a, ast.Name):
+            binds = [st.value for st in ast.walk(fn) if isinstance(st, ast.Assign)
+                     for t in st.targets if isinstance(t, ast.Name) and t.id == a.id]
+            stores = sum(1 for n in ast.walk(fn) if isinstance(n, ast.Name) and n.id == a.id and isinstance(n.ctx, ast.Store))
+            return bool(binds) and stores == len(binds) and all(_is_interval_expr(b) for b in binds)
+        return False
+
+    codes = []
+    for n in ast.walk(fn):
+        if is_sleep(n):
+            codes.append(2 if not arg_ok(n) else (0 if id(n) in direct else 1))
+    return {"sleep_args": codes}
+
+
 def _is_self_attr_any(node):
     return isinstance(node, ast.Attribute) and isinstance(node.value, ast.Name) and node.value.id == "self"
 
@@ -382,6 +440,11 @@ def gen_denm():
     body += f"def snapshotSite : Nat := {rq['snapshot_site']}\n"
     body += "/-- `<x>.acquire(..)` / `<x>.release(..)` calls in the class (locks are to be taken with `with` only) -/\n"
     body += f"def bareLockCalls : Nat := {rq['bare_lock_calls']}\n"
+    sl = analyse_sleep()
+    body += ("/-- one code per `sleep(..)` call in `trigger_denm_messages`: 0 = a statement of its own directly in the body of\n"
+             "    the repetition `while` loop with the constant interval `<request>.denm_interval / 1000` as its only argument,\n"
+             "    1 = that argument but elsewhere (inside try / if / outside the loop), 2 = any other argument -/\n")
+    body += f"def sleepArgs : List Nat := {gen_lean.lean_nat_list(sl['sleep_args'])}\n"
     body += "end Generated.Denm\n"
     gen_lean.write_if_changed("Denm.lean", body)
 
@@ -390,3 +453,4 @@ if __name__ == "__main__":
     print(analyse())
     print(analyse_body())
     print(analyse_request())
+    print(analyse_sleep())
